@@ -712,3 +712,8 @@ for _p in ("C05", "C01"):
     PROPS[_p]["assumptions"] = list(PROPS[_p].get("assumptions", [])) + [
         "MicroL: a user's own JOIN is written only while that user is live — rests on `Conn::shutdown` awaiting the request tasks before "
         "the dispatcher's shutdown (order read from the source; tokio's TaskTracker trusted)"]
+
+
+# C08 / C02: an alteration to nothing is refused at the gate; every MESSAGE of a broadcast carries a non-empty payload (D35)
+for _p in ("C08", "C02"):
+    PROPS[_p]["expect_theorems"] = list(PROPS[_p]["expect_theorems"]) + ["Narwhal.Server.C08_message_payload_nonempty"]
